@@ -537,13 +537,13 @@ fn rare_draw_case(ctx: &Ctx, rep: &mut Report, case: u64, g: &mut Sm64) {
 }
 
 pub fn run(ctx: &Ctx, rep: &mut Report) {
-    for c in ctx.case_ids("raredraw", 8, 64) {
+    for c in ctx.case_ids("raredraw", 8, 512) {
         let mut g = ctx.rng("raredraw", c);
         rare_draw_case(ctx, rep, c, &mut g);
     }
     let e32 = f32::EPSILON as f64;
     let e64 = f64::EPSILON;
-    for c in ctx.case_ids("shadow", 400, 30_000) {
+    for c in ctx.case_ids("shadow", 400, 300_000) {
         let mut g = ctx.rng("shadow", c);
         match c % 4 {
             0 => family::<f64, B64>(ctx, rep, c, &mut g, "NdArray<f64>", e64),
